@@ -4,6 +4,8 @@
 mod case;
 mod cases;
 mod check;
+mod corrupt;
+mod crash;
 mod genr;
 mod hist;
 mod interpose;
